@@ -1366,7 +1366,8 @@ def cases(tier, rng):
         sub = r.fork(i)
         step = sub.choice([1, 3, 55, 1000, 12800, sub.randint(1, 10**9)])
         n_ = sub.randint(2, 12)
-        ts_ = [sub.choice([0, 1_600_000_000_000_000_000]) + j * step for j in range(n_)]
+        base_ = sub.choice([0, 1_600_000_000_000_000_000])
+        ts_ = [base_ + j * step for j in range(n_)]
         if sub.chance(0.4):
             ts_[sub.randint(1, n_ - 1)] += sub.choice([1, -1]) if step > 1 else 1
             ts_ = sorted(ts_)
